@@ -75,6 +75,16 @@ DESC = {
  "S70": ("C10", "CREATE TABLE reads a copy of the schema catalog before waiting for the DDL lock", "two concurrent CREATE TABLE of one name: the refused one leaves a manifest record; reopen fails"),
  "S71": ("C15", "merge join reads its inputs with `while let Some(Ok(..))`: an Err item ends the stream", "error or panic in an input of a merge join (disk key join or sorted derived tables)"),
  "S72": ("C17", "`merge-join` rule matches every hash join with a true residual, also semi/anti", "semi/anti join on the leading key columns of two keyed disk tables large enough for a hash join"),
+ "S73": ("C05", "compaction emits DeleteDV for every row-set of its snapshot, not only the merged ones (same idea as S47, written independently)", "a row-set skipped by the compaction budget that carries a delete vector, next to selected ones"),
+ "S74": ("C06", "the fixed-width INTERVAL encoder writes `months() % 12` instead of the raw month field", "an INTERVAL value of 12 or more months stored in a disk column"),
+ "S75": ("C11", "the top-N heap bound (not only its first allocation) is capped at the 1024-row processing window", "ORDER BY … LIMIT/OFFSET with limit + offset above 1024"),
+ "S76": ("C12", "new rule `useless-order-after-primary-key` drops an ORDER BY whose first key is the (non-unique) primary key the scan is ordered by", "duplicate primary-key values and a second sort key (`ORDER BY pk, x`), also under LIMIT/OFFSET"),
+ "S77": ("C13", "key-range push-down accepts a primary key that is not stored first (the seek walks the block index of storage column 0)", "PRIMARY KEY on a column other than the first, several blocks, a lower bound on the key"),
+ "S78": ("C14", "the zero-divisor mask of `/` and `%` is indexed by the position among the non-NULL divisors", "a divisor batch with a NULL in an earlier row than a zero"),
+ "S79": ("C16", "DOUBLE (op) DECIMAL arithmetic returns a DOUBLE array while the type checker still derives DECIMAL", "arithmetic mixing a DOUBLE and a DECIMAL operand, result inserted / compared / cast as DECIMAL"),
+ "S80": ("C18", "a per-block 'verified once' flag is claimed before the checksum is checked", "a corrupted block read a second time after the first read failed (retry, second query, compactor)"),
+ "S81": ("C19", "merge-iterator sift-down never considers the last heap slot as a right child (same site as S57, written independently)", "an odd number (>= 3) of overlapping row-sets of a primary-key table"),
+ "S82": ("C20", "COPY FROM skips records whose fields are all empty", "a row whose exported columns are all NULL (or a single NULL column)"),
  "S52": ("C10", "reverse of repair db497b9: the binder fetches the table by id with unwrap() after resolving its name", "DROP TABLE by another session between the binder's two catalog lookups (multi-thread runtime)"),
 }
 STRENGTHENED = {
